@@ -47,7 +47,8 @@ pub struct Scn {
 
 pub fn gen(rng: &mut Rng) -> Scn {
     let window = rng.below(3) as u8;
-    let limit = rng.range(1, 4) as u32;
+    // u32::MAX stands for usize::MAX ("no limit" written as a number of permits)
+    let limit = if rng.chance(1, 12) { u32::MAX } else { rng.range(1, 4) as u32 };
     let p = *rng.pick(&[20u64, 50]);
     // u64::MAX stands for Duration::MAX ("wait as long as it takes")
     let timeout_ms = *rng.pick(&[0, 0, p / 2, p / 2, p, p, p, 3 * p / 2, 3 * p / 2, 3 * p, 3 * p, u64::MAX]);
@@ -78,7 +79,7 @@ pub fn gen(rng: &mut Rng) -> Scn {
     if rng.chance(2, 3) {
         let last = callers.iter().map(|c| c.start_ms).max().unwrap_or(0);
         let t2 = last + if timeout_ms == u64::MAX { 20 * p } else { timeout_ms } + 3 * p + *rng.pick(&[0u64, 1, 7]);
-        let extra = limit + rng.below(2) as u32;
+        let extra = if limit == u32::MAX { 3 } else { limit + rng.below(2) as u32 };
         for _ in 0..extra {
             callers.push(Caller { start_ms: t2, lat_ms: 0, err: false, cancel: CancelSpec::Never, svc: 0 });
         }
@@ -99,7 +100,7 @@ pub fn gen(rng: &mut Rng) -> Scn {
 pub fn valid(s: &Scn) -> bool {
     s.window <= 2
         && s.limit >= 1
-        && s.limit <= 6
+        && (s.limit <= 6 || s.limit == u32::MAX)
         && s.period_ms >= 5
         && s.period_ms <= 100
         && (s.timeout_ms <= 400 || s.timeout_ms == u64::MAX)
@@ -171,11 +172,11 @@ pub fn run(s: &Scn, ctx: &mut RunCtx, prefix: &'static str) -> RunOutput {
                 order.swap(i, j);
             }
             // decoys: overwritten by the real settings below
-            b = b.limit_for_period(scn.limit as usize + 3).refresh_period(Duration::from_millis(7)).timeout_duration(Duration::from_millis(1)).window_type(if scn.window == 0 { WindowType::SlidingLog } else { WindowType::Fixed });
+            b = b.limit_for_period(count(scn.limit).saturating_add(3)).refresh_period(Duration::from_millis(7)).timeout_duration(Duration::from_millis(1)).window_type(if scn.window == 0 { WindowType::SlidingLog } else { WindowType::Fixed });
         }
         for k in order {
             b = match k {
-                0 => b.limit_for_period(scn.limit as usize),
+                0 => b.limit_for_period(count(scn.limit)),
                 1 => b.refresh_period(Duration::from_millis(scn.period_ms)),
                 2 => b.timeout_duration(if scn.timeout_ms == u64::MAX { Duration::MAX } else { Duration::from_millis(scn.timeout_ms) }),
                 _ => b.window_type(match scn.window {
@@ -197,7 +198,9 @@ pub fn run(s: &Scn, ctx: &mut RunCtx, prefix: &'static str) -> RunOutput {
                 });
         }
         let layer = b.build();
-        let bases = [layer.layer(SimInner::new(0)), layer.layer(SimInner::new(1))];
+        let Some(bases) = build_guarded("C15.admit_at_once", &format!("a rate limiter with limit_for_period={} window type {}", count(scn.limit), scn.window), || [layer.layer(SimInner::new(0)), layer.layer(SimInner::new(1))]) else {
+            return vec![];
+        };
         let mut defs = vec![];
         for (i, c) in scn.callers.iter().enumerate() {
             let svc = bases[c.svc as usize].clone();
@@ -232,7 +235,8 @@ pub fn run(s: &Scn, ctx: &mut RunCtx, prefix: &'static str) -> RunOutput {
     let mine_task = |i: usize| s.callers.get(i).map(|c| c.svc == k).unwrap_or(false);
     let jump = s.knobs.total_jump() * 1000;
     let p = s.period_ms * 1000;
-    let l = s.limit as usize;
+    // ("no limit": more permits than there are callers)
+    let l = if s.limit == u32::MAX { s.callers.len() + 1 } else { s.limit as usize };
     let tout = s.timeout_ms.saturating_mul(1000);
     // admissions in order
     let adm: Vec<u64> = calls.iter().map(|c| c.start_us).collect();
